@@ -256,7 +256,11 @@ example : Sep sampleWorld ∧ 3 ∈ idsL sampleWorld.store := by decide +kernel
 
 /-- **Every result is the caller's own**: the objects a read hands out (query results, what a
     cursor gives again, aggregation output with the constants of its pipeline, distinct values)
-    are new — none of them is an object that existed before the call, none occurs twice. -/
+    are new — none of them is an object that existed before the call, none occurs twice.
+    (The model sends every travelling value through its own copy.  A pipeline that puts ONE value
+    of a document at two places of a result — `$addFields: {q: '$b', r: '$b'}` — returns that
+    object twice inside the one result; how a stage assembles a document is not modelled here,
+    the positions `aggDoc` / `aggAddFields` / `aggUnwind` stand for whole output documents.) -/
 theorem results_fresh (w : World) (results : List Tpl)
     (hw : (Step.read results).wellFormed = true) :
     ∃ new, (step copyDiscipline w (.read results)).held = w.held ++ new ∧ (idsL new).Nodup ∧
